@@ -6,7 +6,11 @@ DEFAULT = dict(
     p_const=0.12, p_errfut=0.04, p_item=0.45, p_dict=0.08, p_none=0.08, p_read=0.06, p_probe=0.06,
     p_item_err=0.08, p_item_skip=0.05, p_flush_raise=0.1, p_prio=0.4, p_ctx_fault=0.0, p_nonasync=0.0,
     p_override=0.4, p_result=0.1, nvars=2, roots=(1, 1), p_lazy_err=0.4, p_keep=0.0, max_width=3, p_maxstack=0.0,
-    p_again=0.0,      # a yield of a container of stored handles whose very same container object is yielded a second time
+    p_again=0.0,
+    p_manual_ctx=0.0, # contexts entered and left by explicit __enter__/__exit__ calls, in non-nested order
+    p_via_cancel=0.0, # a flush body that fails does so by cancelling its own batch and returning normally
+    p_base_err=0.0,   # params.base_errors: every third fault id is a BaseException that is not an Exception
+    p_vary_bad=0.0,   # params.vary_bad: non-future leaves cycle through 12345, 0, '', False, 0.0, b'', 'abc'      # a yield of a container of stored handles whose very same container object is yielded a second time
 )
 
 
@@ -115,7 +119,13 @@ class Gen:
     def block(self, depth, vals, hands, n, terminal, bd=0):
         c = self.c
         out = []
+        manual = []         # contexts opened by explicit __enter__ in this block, in entry order
         for _ in range(n):
+            if c["p_manual_ctx"] > 0 and len(manual) < 3 and self.r.random() < c["p_manual_ctx"]:
+                self.ncid += 1
+                m = {"v": "m%d" % self.ncid, "c": {"async": [self.ncid, None]}}
+                manual.append(m)
+                out.append({"op": "enter", "v": m["v"], "c": m["c"]})
             r = self.r.random()
             acc = 0.0
 
@@ -169,6 +179,11 @@ class Gen:
                     x1, x2 = self.fx(), self.fx()
                     out.append({"op": "yield", "x": x1, "s": s, "again": x2})
                     vals.extend([x1, x2])
+            if manual and self.r.random() < 0.3:
+                m = manual.pop(0)       # the OLDEST one first: lifetimes overlap without nesting
+                out.append({"op": "exit", "v": m["v"], "c": m["c"]})
+        for m in manual:
+            out.append({"op": "exit", "v": m["v"], "c": m["c"]})
         if terminal:
             r = self.r.random()
             if r < c["p_result"]:
@@ -191,6 +206,8 @@ class Gen:
                                             ["const", self.r.randrange(0, 3), self.r.randrange(0, 3)]])
             if self.r.random() < c["p_flush_raise"]:
                 ks["raise"] = [self.r.randrange(0, 4), 1000 + self.ferr()]
+                if c["p_via_cancel"] > 0 and self.r.random() < c["p_via_cancel"]:
+                    ks["via_cancel"] = True
             if ks:
                 kinds[str(k)] = ks
         p = {"kinds": kinds}
@@ -198,6 +215,10 @@ class Gen:
             p["keep"] = True
         if self.r.random() < c["p_maxstack"]:
             p["maxstack"] = self.r.choice([1, 2, 3, 4, 5, 6, 8])
+        if c["p_base_err"] > 0 and self.r.random() < c["p_base_err"]:
+            p["base_errors"] = True
+        if c["p_vary_bad"] > 0 and self.r.random() < c["p_vary_bad"]:
+            p["vary_bad"] = True
         return p
 
     def case(self):
